@@ -2273,6 +2273,9 @@ class _FuncEval:
             return self.record(fn, args, kwargs, st, n)
         if k == "clsparam":
             return self.record(fn, args, kwargs, st, n)
+        if k == "call" and fn[1] == ("ext", "operator.attrgetter") and len(fn[2]) == 1 and fn[2][0][0] == "const" and \
+                isinstance(fn[2][0][1], str) and "." not in fn[2][0][1] and len(args) == 1 and not kwargs and not fn[3]:
+            return ("attr", args[0], fn[2][0][1])  # operator.attrgetter("a")(x) is x.a
         if k == "ite":
             # call of a conditional callable
             return mk_ite(fn[1], self.apply(fn[2], args, kwargs, st, n), self.apply(fn[3], args, kwargs, st, n))
